@@ -93,9 +93,9 @@ def _suitable(fn: ast.FunctionDef) -> bool:
       return False
     if isinstance(x, ast.stmt):
       n_stmts += 1
-    if isinstance(x, (ast.For, ast.While, ast.Try, ast.With)) and any(_has_return_in(s) for s in getattr(x, 'body', []) +
-                                                                       getattr(x, 'orelse', []) + getattr(x, 'finalbody', []) +
-                                                                       [h for h in getattr(x, 'handlers', [])]):
+    if isinstance(x, ast.Try) and any(_has_return_in(s_) for s_ in x.finalbody):
+      return False
+    if isinstance(x, (ast.For, ast.While)) and any(_has_return_in(s_) for s_ in x.orelse):
       return False
     if isinstance(x, ast.Call) and isinstance(x.func, ast.Name) and x.func.id in ('locals', 'vars', 'super', 'eval', 'exec'):
       return False
@@ -167,6 +167,61 @@ def _complete(stmts: List[ast.stmt], at: ast.AST) -> List[ast.stmt]:
     last.orelse = _complete(list(last.orelse), last)
     return stmts
   return stmts + [ast.copy_location(ast.Return(value=None), last)]
+
+
+def _needs_flags(stmts: List[ast.stmt]) -> bool:
+  """True if some `return` sits inside a loop / try / with (tail conversion cannot express that)."""
+  for st in stmts:
+    for x in ast.walk(st):
+      if isinstance(x, (ast.For, ast.While, ast.Try, ast.With)) and _has_return_in(x):
+        return True
+  return False
+
+
+def _flag_returns(stmts: List[ast.stmt], done: str, make, in_loop: bool = False) -> List[ast.stmt]:
+  """General return elimination: `return e` -> make(e) + `done = True` (+ break inside loops); every statement that
+  follows a return-containing statement in the same block runs only `if not done`."""
+  def set_done(at):
+    a = ast.Assign(targets=[ast.Name(id=done, ctx=ast.Store())], value=ast.Constant(value=True))
+    return ast.copy_location(a, at)
+
+  def guard(rest, at):
+    if not rest:
+      return []
+    g_ = ast.If(test=ast.UnaryOp(op=ast.Not(), operand=ast.Name(id=done, ctx=ast.Load())), body=rest, orelse=[])
+    return [ast.copy_location(g_, at)]
+
+  out: List[ast.stmt] = []
+  for i, st in enumerate(stmts):
+    if isinstance(st, ast.Return):
+      out.extend(make(st.value, st))
+      out.append(set_done(st))
+      if in_loop:
+        out.append(ast.copy_location(ast.Break(), st))
+      return out
+    if not _has_return_in(st):
+      out.append(st)
+      continue
+    rest = stmts[i + 1:]
+    if isinstance(st, ast.If):
+      st.body = _flag_returns(list(st.body), done, make, in_loop) or [ast.Pass()]
+      st.orelse = _flag_returns(list(st.orelse), done, make, in_loop)
+    elif isinstance(st, (ast.For, ast.While)):
+      st.body = _flag_returns(list(st.body), done, make, True) or [ast.Pass()]
+    elif isinstance(st, ast.With):
+      st.body = _flag_returns(list(st.body), done, make, in_loop) or [ast.Pass()]
+    elif isinstance(st, ast.Try):
+      st.body = _flag_returns(list(st.body), done, make, in_loop) or [ast.Pass()]
+      st.orelse = _flag_returns(list(st.orelse), done, make, in_loop)
+      for h in st.handlers:
+        h.body = _flag_returns(list(h.body), done, make, in_loop) or [ast.Pass()]
+    out.append(st)
+    if in_loop and isinstance(st, (ast.For, ast.While)):
+      brk = ast.If(test=ast.Name(id=done, ctx=ast.Load()), body=[ast.Break()], orelse=[])
+      out.append(ast.copy_location(brk, st))
+    out.extend(guard(_flag_returns(rest, done, make, in_loop), st))
+    return out
+  return out
 
 
 def _replace_returns(stmts: List[ast.stmt], make) -> List[ast.stmt]:
@@ -417,6 +472,38 @@ class _Inliner:
     rest = self._try_inline(st2, fn, mod_helpers, meths) or self._hoist(st2, fn, mod_helpers, meths) or [st2]
     return first + rest
 
+  def _inline_flagged(self, st, mode, body, pre, res, tag, helper) -> List[ast.stmt]:
+    """Inlines a helper whose returns sit inside loops / try / with, using an explicit result and a done flag."""
+    done = f'done__{tag}'
+
+    def make(v, r):
+      if mode == 'expr' and v is None:
+        return []
+      a = ast.Assign(targets=[ast.Name(id=res, ctx=ast.Store())], value=v if v is not None else ast.Constant(value=None))
+      return [ast.copy_location(a, r)]
+    init = [ast.copy_location(ast.Assign(targets=[ast.Name(id=done, ctx=ast.Store())], value=ast.Constant(value=False)), st),
+            ast.copy_location(ast.Assign(targets=[ast.Name(id=res, ctx=ast.Store())], value=ast.Constant(value=None)), st)]
+    new = init + _flag_returns(body, done, make)
+    load = ast.Name(id=res, ctx=ast.Load())
+    if mode == 'assign':
+      new.append(ast.copy_location(ast.Assign(targets=[copy.deepcopy(st.targets[0])], value=load), st))
+    elif mode == 'annassign':
+      new.append(ast.copy_location(ast.Assign(targets=[copy.deepcopy(st.target)], value=load), st))
+    elif mode == 'return':
+      new.append(ast.copy_location(ast.Return(value=load), st))
+    elif mode in ('if', 'ifnot'):
+      test: ast.AST = load
+      if mode == 'ifnot':
+        test = ast.UnaryOp(op=ast.Not(), operand=test)
+      st.test = ast.copy_location(test, st)
+      new.append(st)
+    self.count += 1
+    self.names[helper.name] = self.names.get(helper.name, 0) + 1
+    out = pre + new
+    for s_ in out:
+      ast.fix_missing_locations(s_)
+    return out
+
   def _try_inline(self, st: ast.stmt, fn, mod_helpers, meths) -> Optional[List[ast.stmt]]:
     call = None
     mode = None
@@ -501,10 +588,14 @@ class _Inliner:
       if nm not in rename and nm not in bound:
         rename[nm] = f'{nm}__{tag}'
     body = [copy.deepcopy(s) for s in _strip_doc(helper.body)]
-    body = _complete(_to_tail(body), st)
+    flagged = _needs_flags(body)
+    if not flagged:
+      body = _complete(_to_tail(body), st)
     sub = _Subst(mapping, rename)
     body = [sub.visit(s) for s in body]
     res = f'ret__{tag}'
+    if flagged:
+      return self._inline_flagged(st, mode, body, pre, res, tag, helper)
 
     if mode == 'expr':
       def make(v, r):
